@@ -13,12 +13,16 @@ def gen_scenario(rng, sid, big=False, faults=True):
     n = rng.choice([1, 2, 3, 4, 8, 16] if big else [1, 2, 2, 3, 3, 4])
     L = ["m pool %d %d" % (n, 4096 if rng.random() < 0.5 else 0)]
     skip = 1 if (n > 1 and rng.random() < 0.25) else 0          # thread 0 not running -> failed sends / FORCE
+    dead = None
+    if n > 2 and rng.random() < 0.3:                            # one more thread never starts (pthread_create fails)
+        k = rng.randint(1, n - skip)
+        L.append("m fault pthread_create %d 1" % k); dead = skip + k - 1
     L += ["m start %d" % skip, "m waitrun"]
     mid = [sid * 100 + 1]
     def nid():
         mid[0] += 1; return mid[0] - 1
     gates = []
-    live = list(range(skip, n))
+    live = [t for t in range(skip, n) if t != dead]
     # broadcasts from the outside (bsend only: cbsend needs an originating pool thread)
     for _ in range(rng.randint(0, 3)):
         f = rng.choice([0, 0, SYNC, SYNC, SYNC | USLEEP]) | rng.choice([0, 0, FORCE, FAIL_DIRECT, SELF_DIRECT, SELF_SKIP])
@@ -96,7 +100,7 @@ def run(ctx):
             continue
         ok, info, r = tp.validate(ctx, prep(evs), d, "c10_%d" % sid, KEEP)
         ntr += len(texts); total_ev += info["events"]
-        for dv in set(re.findall(r'"DEVIATION",\s*"([^"]+)"', r.out)):
+        for dv in tp.deviations("C10", r.out):
             ctx.fail("deviation:" + dv, "the trace took the named deviation action of TpBcast (see specs/tp/TpBcast.tla)",
                      {"scenario": "".join(texts), "seed": ctx.seed + sid})
         if not samples: samples.append({"scenario": texts[0].split("\n")[:14], "events_validated": info["events"]})
